@@ -312,6 +312,37 @@ def refactor(dirs):
             print(r["name"], "suite_ok=%s" % r.get("suite_ok"), "tie=%s" % r["tie"], "props=%s" % bad, r.get("patch_failed", ""), r.get("harness_build", "")[:200], flush=True)
 
 
+def seeds():
+    """all seeded changes of /verif/seeded through the fast path; reports those whose own property stays silent"""
+    global OPEN
+    OPEN = open_classes()
+    os.makedirs(TMP, exist_ok=True)
+    todo = []
+    meta = {}
+    for d in sorted(os.listdir(os.path.join(ROOT, "seeded"))):
+        pth = os.path.join(ROOT, "seeded", d, "patch.diff")
+        if os.path.exists(pth):
+            todo.append((d, pth))
+            try:
+                meta[d] = json.load(open(os.path.join(ROOT, "seeded", d, "meta.json")))
+            except Exception:
+                meta[d] = {}
+    out = open(os.path.join(RES, "seeds.jsonl"), "w")
+    silent = []
+    with mp.Pool(int(os.environ.get("MUT_WORKERS", "10"))) as pool:
+        for r in pool.imap_unordered(patch_one, todo):
+            out.write(json.dumps(r) + "\n"); out.flush()
+            own = meta[r["name"]].get("property")
+            named = meta[r["name"]].get("properties_named_by_author") or [own]
+            flagged = [k for k, v in r["props"].items() if v["verdict"] != "ok"]
+            ok = own in flagged or any(p in flagged for p in named)
+            if not ok:
+                silent.append((r["name"], own, flagged, r["tie"], r.get("patch_failed", ""), r.get("harness_build", "")[:100]))
+    print("seeds:", len(todo), "own property silent on the fast path:", len(silent))
+    for x in sorted(silent):
+        print("  ", x)
+
+
 def verdict(r):
     vs = [v["verdict"] for v in r["props"].values()]
     if "replay" in vs: return "replay"
@@ -345,4 +376,5 @@ if __name__ == "__main__":
     elif c == "phase2b": phase2b()
     elif c == "retest": retest(sys.argv[2], sys.argv[3].split(","))
     elif c == "refactor": refactor(sys.argv[2:])
+    elif c == "seeds": seeds()
     elif c == "report": report()
